@@ -245,6 +245,120 @@ def info_rank_case(rng, name, nbpus=8):
     return lines
 
 
+def internal_case(rng, name, nbpus=8):
+    """discovery the way the OS backends do it: hwloc_internal_cpukinds_register
+    with flags 0 (a merge keeps a known forced efficiency) or OVERWRITE, invalid
+    flags / empty cpuset in between, one ranking at the end, then public calls"""
+    lines = ["case %s %d" % (name, nbpus)]
+    pieces = []
+    for _ in range(rng.randint(2, 7)):
+        r = rng.random()
+        if r < 0.08:
+            lines.append(reg_line(EMPTY, rng.choice(FORCED), rng.choice([0, 1]), rand_infos(rng)).replace("reg", "ireg", 1))
+        elif r < 0.18:
+            lines.append(reg_line(BS(rng.getrandbits(nbpus) | 1), rng.choice(FORCED), rng.choice([2, 3, 4, 6, 1 << 33]), rand_infos(rng)).replace("reg", "ireg", 1))
+        else:
+            s = rand_set(rng, nbpus, pieces)
+            pieces.append(s)
+            lines.append(reg_line(s, rng.choice(FORCED + [-1, 0, 1]), rng.choice([0, 0, 0, 1]), rand_infos(rng)).replace("reg", "ireg", 1))
+    if rng.random() < 0.3:
+        e = rng.choice(ENVS)
+        lines.append("env " + (hexs(e) if e else "-"))
+    lines.append("rank")
+    for p in pieces[:3]:
+        lines.append("getby %s 0" % p.show())
+    for _ in range(rng.randint(0, 3)):
+        r = rng.random()
+        if r < 0.4:
+            lines.append(reg_line(rand_set(rng, nbpus, pieces), rng.choice(FORCED), 0, rand_infos(rng)))
+        elif r < 0.6:
+            lines.append("restrict " + BS(rng.getrandbits(nbpus) | rng.getrandbits(nbpus)).show())
+        else:
+            lines.append(rng.choice(["dup", "xml", "rank"]))
+    return lines
+
+
+def adopt_case(rng, name, nbpus=8):
+    """a topology adopted from shared memory is read-only: register / restrict /
+    refresh give EPERM and change nothing, consulting works, dup / XML reload
+    give a writable copy with the same kinds"""
+    lines = ["case %s %d" % (name, nbpus)]
+    pieces = []
+    for j in range(rng.randint(1, 4)):
+        s = rand_set(rng, nbpus, pieces)
+        pieces.append(s)
+        lines.append(reg_line(s, rng.choice(FORCED) if rng.random() < 0.5 else 3 * j + 1, 0, rand_infos(rng)))
+    if rng.random() < 0.3:
+        lines.append("restrict " + BS(rng.getrandbits(nbpus) | rng.getrandbits(nbpus)).show())
+    lines.append("adopt")
+    ro = [reg_line(rand_set(rng, nbpus, pieces), rng.choice(FORCED), 0, rand_infos(rng)),
+          reg_line(None, 0, 0, None), reg_line(BS(1), 0, 5, None),
+          "restrict " + BS(rng.getrandbits(nbpus) | 1).show(), "rank",
+          "getby %s 0" % rand_set(rng, nbpus, pieces).show(), "getnr 0", "getinfo %d 0" % rng.randrange(4)]
+    rng.shuffle(ro)
+    lines += ro[:rng.randint(3, len(ro))]
+    if rng.random() < 0.8:
+        lines.append(rng.choice(["dup", "xml"]))
+        lines.append(reg_line(rand_set(rng, nbpus, pieces), rng.choice(FORCED), 0, rand_infos(rng)))
+        if rng.random() < 0.5:
+            lines.append("restrict " + BS(rng.getrandbits(nbpus) | rng.getrandbits(nbpus)).show())
+    return lines
+
+
+def snapshot_case(rng, name, directory, homogeneous, ranking, nbits=24, maxfreq="-"):
+    """kinds registered by the Linux backend from a sysfs snapshot, then public operations on them"""
+    lines = ["caseroot %s %s %s %s %s" % (name, directory, homogeneous, hexs(ranking) if ranking else "-", maxfreq)]
+    pieces = []
+    for _ in range(rng.randint(2, 7)):
+        r = rng.random()
+        if r < 0.35:
+            lines.append("getby %s 0" % rand_set(rng, nbits, pieces).show())
+        elif r < 0.65:
+            s = rand_set(rng, nbits, pieces)
+            pieces.append(s)
+            lines.append(reg_line(s, rng.choice(FORCED), 0, rand_infos(rng)))
+        elif r < 0.8:
+            lines.append("restrict " + BS(rng.getrandbits(nbits) | rng.getrandbits(nbits) | 1).show())
+        else:
+            o = rng.choice(["dup", "xml", "rank", "adopt", "getnr 0"])
+            if o == "adopt" and "adopt" in lines:
+                o = "rank"
+            lines.append(o)
+    return lines
+
+
+def model_script(case, impl_lines):
+    """the script the model driver runs for a case: a caseroot line is replaced by
+    the state the implementation reported after loading (None if it did not load)"""
+    if not case[0].startswith("caseroot"):
+        return case
+    steps = parse_steps(case[:1], impl_lines or [])
+    d = steps[0][2] if steps else None
+    if d is None or d.priv is None:
+        return None
+    return [casestate_line(case[0], d)] + case[1:]
+
+
+def casestate_line(script0, dump):
+    """model-side replacement of a caseroot line: the state the implementation reported after loading"""
+    f = script0.split()
+    priv = {}
+    alloc = 0
+    for tok in dump.priv.split()[1:]:
+        if tok.startswith("alloc="):
+            alloc = int(tok[6:])
+        else:
+            i, fo, ra, ar = tok.split(":")
+            priv[int(i)] = (fo[7:], ra[5:], ar[4:])
+    out = ["casestate", f[1], dump.topo.show(), f[4], str(alloc), str(len(dump.kinds))]
+    for i, k in enumerate(dump.kinds):
+        fo, ra, ar = priv[i]
+        out += [k[0].show(), str(k[1]), fo, ra, ar, str(len(k[2]))]
+        for n, v in k[2]:
+            out += [hexs(n), hexs(v)]
+    return " ".join(out)
+
+
 def malformed_case(rng, name, nbpus=8):
     lines = ["case %s %d" % (name, nbpus)]
     lines.append(reg_line(BS(rng.getrandbits(nbpus) | 1), 1, 0, [("a", "1")]))
@@ -349,7 +463,7 @@ def parse_steps(script, transcript):
             steps.append((sl, l, None))
             break
         op = sl.split()[0]
-        d = read_dump() if op in ("reg", "restrict", "rank", "dup", "xml") else None
+        d = read_dump() if op in ("reg", "ireg", "restrict", "rank", "dup", "xml", "adopt") else None
         steps.append((sl, l, d))
     return steps
 
@@ -371,13 +485,30 @@ def spec_check(script, transcript, stats=None):
     def bump(k):
         stats[k] = stats.get(k, 0) + 1
     steps = parse_steps(script, transcript)
-    nbpus = int(script[0].split()[2])
-    topo = BS((1 << nbpus) - 1)
-    regs = []          # effective registrations, oldest first: [BS, forced(clamped), infos]
+    regs = []          # effective registrations, oldest first: [BS, forced(clamped) or None, infos]
     env = None
     prev = steps[0][2]
-    if prev is None or prev.nr != 0:
-        return [("initial-state", "no cpukinds expected right after loading a synthetic topology")]
+    loaded = script[0].startswith("caseroot")
+    if prev is None:
+        return [("initial-state", "no state dump after loading")]
+    if loaded:
+        # kinds registered by the Linux backend: taken as the initial effective registrations
+        f0 = script[0].split()
+        env = None if f0[4] == "-" else unhexs(f0[4])
+        topo = prev.topo
+        for k in prev.kinds:
+            regs.append([k[0], None, list(k[2])])
+        if f0[3] not in ("-", "0") and prev.nr > 1:
+            bad.append(("homogeneous", "HWLOC_CPUKINDS_HOMOGENEOUS=%s but %d kinds" % (f0[3], prev.nr)))
+        steps = [steps[0], ("loaded", "loaded rc=0 err=OK", prev)] + steps[1:]
+    else:
+        nbpus = int(script[0].split()[2])
+        topo = BS((1 << nbpus) - 1)
+        if prev.nr != 0:
+            return [("initial-state", "no cpukinds expected right after loading a synthetic topology")]
+    adopted = False
+    pending_rank = False      # kinds registered the internal way and not ranked yet
+    forced_reliable = True    # False once a registration without the OVERWRITE flag happened
     for idx, (sl, res, d) in enumerate(steps[1:], 1):
         f = sl.split()
         op = f[0]
@@ -431,14 +562,24 @@ def spec_check(script, transcript, stats=None):
             bad.append(("truncated", "%s: no state dump" % where))
             break
         changed = True
-        if op == "reg":
+        was_pending = pending_rank
+        if op == "loaded":
+            pass
+        elif op in ("reg", "restrict", "rank") and adopted:
+            if (rc, err) != (-1, "EPERM"):
+                bad.append(("eperm", "%s: adopted (read-only) topology must give EPERM, got %s" % (where, res)))
+            changed = False
+        elif op in ("reg", "ireg"):
             s = BS.parse(f[1])
             forced, flags = int(f[2]), int(f[3])
             infos = None
             if f[4] != "NULL":
                 n = int(f[4])
                 infos = [(unhexs(f[5 + 2 * i]), unhexs(f[6 + 2 * i])) for i in range(n)]
-            invalid = flags != 0 or s is None or s.empty()
+            if op == "reg":
+                invalid = flags != 0 or s is None or s.empty()
+            else:
+                invalid = s.empty() or (flags & ~1) != 0
             if invalid:
                 if (rc, err) != (-1, "EINVAL"):
                     bad.append(("einval", "%s: invalid arguments must give EINVAL, got %s" % (where, res)))
@@ -446,8 +587,14 @@ def spec_check(script, transcript, stats=None):
             elif rc != 0:
                 bad.append(("reg-failed", "%s: valid registration failed: %s" % (where, res)))
                 changed = False
-            else:
+            elif op == "reg":
                 regs.append([s, -1 if forced < 0 else forced, infos or []])
+                pending_rank = False
+            else:
+                regs.append([s, forced, infos or []])
+                pending_rank = True
+                if not flags & 1:
+                    forced_reliable = False
         elif op == "restrict":
             s = BS.parse(f[1])
             t2 = topo.inter(s)
@@ -462,15 +609,23 @@ def spec_check(script, transcript, stats=None):
                 topo = t2
                 for r in regs:
                     r[0] = r[0].inter(topo)
-        elif op in ("dup", "xml", "rank"):
+        elif op in ("dup", "xml", "rank", "adopt"):
             if rc != 0:
                 bad.append((op, "%s: failed: %s" % (where, res)))
+            if op in ("xml", "rank"):
+                pending_rank = False
+            if op in ("dup", "xml"):
+                adopted = False
+            if op == "adopt":
+                adopted = True
         if d.topo != topo:
             bad.append(("topo", "%s: root cpuset %s, expected %s" % (where, d.topo.show(), topo.show())))
         # unchanged state where the property says so
-        if not changed or op in ("dup", "xml"):
+        if op == "restrict" and changed and d.nr != prev.nr:
+            pending_rank = False
+        if not changed or op in ("dup", "xml", "adopt"):
             same = [(k[0], k[2]) for k in d.kinds] == [(k[0], k[2]) for k in prev.kinds]
-            if op == "xml":
+            if op == "xml" and not pending_rank and not was_pending:
                 # reload re-ranks: same kinds, same order unless ranking is impossible to compare
                 same = same and [k[1] for k in d.kinds] == [k[1] for k in prev.kinds]
             if not changed:
@@ -519,6 +674,9 @@ def spec_check(script, transcript, stats=None):
             bump("restrict_removed_kind")
         if len(ks) >= 2:
             bump("ranked" if effs[0] == 0 else "all_unknown")
+        if pending_rank:
+            prev = d
+            continue
         if not (all(e == -1 for e in effs) or effs == list(range(len(ks)))):
             bad.append(("efficiencies", "%s: efficiencies %r are neither all -1 nor 0..nr-1 in order" % (where, effs)))
         if len(ks) == 1 and effs != [0]:
@@ -526,6 +684,9 @@ def spec_check(script, transcript, stats=None):
         # forced efficiencies known and distinct => ranked by them (default / forced_efficiency strategies);
         # checked where a ranking has just happened
         forced = [k[4] for k in ks]
+        if not forced_reliable:
+            prev = d
+            continue
         ranked_now = (op == "reg" and changed) or op in ("rank", "xml") or (op == "restrict" and changed and d.nr != prev.nr)
         if ranked_now and len(ks) >= 2 and env in (None, "default", "forced_efficiency", "bogus", "") \
                 and all(x is not None and x >= 0 for x in forced) and len(set(forced)) == len(forced):
